@@ -416,10 +416,17 @@ class Model:
         Returns:
             model: model of self with updated pin names
         """
-        for pin in copy(self.pin_dic):
-            if pin in pin_mapping:
-                n = self.pin_dic.pop(pin)
-                self.pin_dic[pin_mapping[pin]] = n
+        new_pin_dic = {}
+        names = set()
+        for pin, n in self.pin_dic.items():
+            new_pin = pin_mapping.get(pin, pin)
+            if new_pin.name in names:
+                raise ValueError(
+                    f"In Model {self}: pin mapping gives two pins the name {new_pin.name}."
+                )
+            names.add(new_pin.name)
+            new_pin_dic[new_pin] = n
+        self.pin_dic = new_pin_dic
         self.update_pins()
         return self
 
